@@ -9,6 +9,7 @@ mod elems;
 mod engine;
 mod props;
 mod refmmr;
+mod world;
 
 use engine::*;
 use std::path::PathBuf;
@@ -21,12 +22,17 @@ struct PropDef {
 }
 
 fn props() -> Vec<PropDef> {
-	vec![PropDef {
-		id: "C07",
-		level: "exploration",
-		run: props::c07::run,
-		replay: props::c07::replay,
-	}]
+	macro_rules! p {
+		($id:expr, $lvl:expr, $m:ident) => {
+			PropDef {
+				id: $id,
+				level: $lvl,
+				run: props::$m::run,
+				replay: props::$m::replay,
+			}
+		};
+	}
+	vec![p!("C02", "exploration", c02), p!("C07", "exploration", c07)]
 }
 
 fn root_dir() -> PathBuf {
